@@ -219,3 +219,37 @@ pub fn expected_bigram_tuples(
             .collect(),
     )
 }
+
+/// What `TrainerConfig::from_readers` followed by `Trainer::new` computes from the five definition
+/// files, before any training: the label feature sets in label order as
+/// `(unigram ids, bigram_right ids, bigram_left ids)`, the three interning maps, and the three
+/// next-id counters of the feature extractor.  `Err(())` = one of the two calls returned an error.
+#[allow(clippy::type_complexity)]
+pub fn trainer_labels(
+    lex: &[u8],
+    chardef: &[u8],
+    unk: &[u8],
+    feature_def: &[u8],
+    rewrite_def: &[u8],
+) -> Result<(Vec<(Vec<u32>, Vec<Option<u32>>, Vec<Option<u32>>)>, IdMaps, [u32; 3]), ()> {
+    let config = TrainerConfig::from_readers(lex, chardef, unk, feature_def, rewrite_def).map_err(|_| ())?;
+    let trainer = Trainer::new(config).map_err(|_| ())?;
+    let cfg = crate::common::bincode_config();
+    // the provider and the counters are read through their serialised form (both types only expose `Encode`)
+    let bytes = bincode::encode_to_vec(&trainer.provider, cfg).map_err(|_| ())?;
+    let (sets, _): (Vec<(Vec<u32>, Vec<Option<u32>>, Vec<Option<u32>>)>, usize) =
+        bincode::decode_from_slice(&bytes, cfg).map_err(|_| ())?;
+    let fe = bincode::encode_to_vec(&trainer.config.feature_extractor, cfg).map_err(|_| ())?;
+    let mut off = 0;
+    for _ in 0..3 {
+        let (_, n): (Vec<(String, u32)>, usize) = bincode::decode_from_slice(&fe[off..], cfg).map_err(|_| ())?;
+        off += n;
+    }
+    let mut nexts = [0u32; 3];
+    for c in nexts.iter_mut() {
+        let (v, n): (u32, usize) = bincode::decode_from_slice(&fe[off..], cfg).map_err(|_| ())?;
+        off += n;
+        *c = v;
+    }
+    Ok((sets, dump_maps(&trainer.config.feature_extractor), nexts))
+}
